@@ -192,6 +192,137 @@ pub async fn waits(path: &str) {
     let n = std::net::TcpStream::connect("host:80");
 }
 '''
+    # secondary switches and list-valued settings: one construct per documented key
+    out["st/extra.py"] = '''"""
+Purpose: probes for list-valued and secondary settings
+
+Scope: the staircase project
+
+Overview: One construct per documented key that is not a numeric threshold.
+"""
+import re
+
+RETRY_LIMIT_MS = 4217
+CACHE_PREFIX_KEY = "cache-prefix"
+
+
+class OrderManager:
+    def run(self, a):
+        return a
+
+
+class Gadget:
+    def __init__(self, name):
+        self._name = name
+        self._size = 2
+
+    def get_name(self):
+        return self._name
+
+    def size(self):
+        return self._size
+
+    def fetch_label(self):
+        return self._name
+
+
+def lbyl_more(x, y, s, obj):
+    total = number = ratio = 0
+    if isinstance(x, int):
+        total = x + 1
+    if obj is not None:
+        obj.run()
+    if s.isdigit():
+        number = int(s)
+    if y != 0:
+        ratio = x / y
+    return total, number, ratio
+
+
+def only_here(flavour):
+    if flavour in ("sweet", "sour", "bitter"):
+        return 1
+    return 0
+
+
+def phases(engine, phase):
+    engine.set_phase("start")
+    engine.set_phase("stop")
+    engine.set_phase("start")
+    if phase == "start":
+        return 1
+    if phase == "stop":
+        return 2
+    return 0
+
+
+def concat(items):
+    out = ""
+    for item in items:
+        out += str(item)
+        out += ","
+        if re.match("a+", item):
+            out += "!"
+    return out
+'''
+    out["st/extra_b.py"] = '''"""
+Purpose: second holder of the shared constants
+
+Scope: the staircase project
+
+Overview: Repeats two module constants of st/extra.py.
+"""
+
+RETRY_LIMIT_MS = 4217
+CACHE_PREFIX_KEY = "cache-prefix"
+'''
+    out["st/extra_c.py"] = '''"""
+Purpose: third holder of one shared constant
+
+Scope: the staircase project
+
+Overview: Repeats one module constant of st/extra.py.
+"""
+
+RETRY_LIMIT_MS = 4217
+'''
+    out["st/extra.ts"] = '''// probes for TypeScript-side switches
+export function show(a: number): number {
+  console.log(a);
+  console.warn(a);
+  console.table(a);
+  // @ts-ignore
+  const b: string = a;
+  // eslint-disable-next-line no-console
+  console.info(b);
+  return a;
+}
+'''
+    out["st/safe_tests.rs"] = '''pub fn plain(v: i32) -> i32 {
+    v
+}
+
+#[cfg(test)]
+mod tests {
+    #[test]
+    fn takes() {
+        let a = Some(1).unwrap();
+        let items = vec![String::new()];
+        for item in &items {
+            let c = item.clone();
+            consume(c);
+            consume(item);
+        }
+        consume(a);
+    }
+
+    #[tokio::test]
+    async fn waits_in_test() {
+        let t = std::fs::read_to_string("p");
+        consume(t);
+    }
+}
+'''
     return out
 
 
@@ -234,6 +365,33 @@ SWEEPS = [
     ("clone-abuse", "clone-abuse", "detect_clone_chain", [True, False]),
     ("blocking-async", "blocking-async", "detect_sleep_in_async", [True, False]),
     ("blocking-async", "blocking-async", "detect_fs_in_async", [True, False]),
+    # the remaining documented keys (docs/<linter>-linter.md option tables and docs/configuration.md), dotted = nested sub-section
+    ("lbyl", "lbyl", "detect_isinstance", [True, False]),
+    ("lbyl", "lbyl", "detect_none_check", [True, False]),
+    ("lbyl", "lbyl", "detect_string_validation", [True, False]),
+    ("lbyl", "lbyl", "detect_division_check", [True, False]),
+    ("srp", "srp", "check_keywords", [True, False]),
+    ("srp", "srp", "keywords", [["Manager", "Gadget"], ["Manager"], ["Zebra"]]),
+    ("srp", "srp", "max_responsibility_score", [1, 5, 50]),
+    ("dry", "dry", "detect_duplicate_constants", [True, False]),
+    ("dry", "dry", "min_duplicate_tokens", [1, 30, 500]),
+    ("stringly-typed", "stringly-typed", "max_values_for_enum", [6, 3, 2]),
+    ("stringly-typed", "stringly-typed", "require_cross_file", [False, True]),
+    ("stringly-typed", "stringly-typed", "allowed_string_sets", [[], [["red", "green"]], [["red", "green"], ["north", "south", "east"]]]),
+    ("stringly-typed", "stringly-typed", "exclude_variables", [[], ["mode"], ["mode", "kind", "tier"]]),
+    ("method-property", "method-property", "ignore_methods", [[], ["get_name"], ["get_name", "size", "fetch_label"]]),
+    ("method-property", "method-property", "exclude_names", [[], ["size"]]),
+    ("method-property", "method-property", "exclude_prefixes", [[], ["fetch_"], ["fetch_", "get_", "view_"]]),
+    ("improper-logging", "improper-logging", "console_methods", [["log", "warn", "error", "debug", "info", "table"], ["log", "warn"], ["log"]]),
+    ("lazy-ignores", "lazy-ignores", "check_ts_ignore", [True, False]),
+    ("lazy-ignores", "lazy-ignores", "check_eslint_disable", [True, False]),
+    ("lazy-ignores", "lazy-ignores", "ignore_patterns", [[], ["st/lazy.py"], ["st/**"]]),
+    ("unwrap-abuse", "unwrap-abuse", "allow_in_tests", [False, True]),
+    ("clone-abuse", "clone-abuse", "allow_in_tests", [False, True]),
+    ("blocking-async", "blocking-async", "allow_in_tests", [False, True]),
+    ("perf", "performance", "string-concat-loop.enabled", [True, False]),
+    ("perf", "performance", "regex-in-loop.enabled", [True, False]),
+    ("perf", "performance", "string-concat-loop.report_each_concat", [True, False]),
 ]
 
 # settings whose documented effect is the wording of a finding or an extra notice at the same place
